@@ -6,6 +6,7 @@ All theorems: any number of sessions and topics, any capacities ≥ 1, any actio
 -/
 import P2.Model.LiveFwd
 import P2.Props.C24
+import P2.Extracted.C23
 
 namespace P2.C23
 open P2.Dedup P2.LiveFwd
@@ -1011,6 +1012,106 @@ theorem c23_no_self_echo (topicOf : Nat → Option Nat) (st : St) (acts : List A
   · intro x hx
     have := hb x (by simp only [inbound, List.mem_append]; exact Or.inr hx)
     simpa using this
+
+/-! ## Tie to the source text
+
+`props/C23_extract.py` reads the `OperationReceived` branch of `ManagerEventStream::next_event`
+as it is *now* and emits its statements as tokens in source order (an unknown statement is an
+extraction failure). `phasesOf` / `consumeOf` give the token list its meaning as a sequential
+program with early exit (`continue`); `c23_consume_is_source` proves that this program is the
+model's `St.consume` for every state. Moving the consumer de-duplication in front of the
+forwarding loop, removing the `id == session_id` skip or the clean-up of failed sessions changes
+the token list and breaks the theorem. -/
+
+inductive Phase where
+  /-- `let Some(topic) = map.topic(session_id) else { …; continue }` -/
+  | swallow
+  /-- `for id in keys { [if id == session_id { continue }] …sender_mut… tx.send(Payload(operation.clone())) … }` -/
+  | forward (skipSelf : Bool)
+  /-- `for id in dropped { map.drop(id) }` -/
+  | dropFailed
+  /-- `if !state.dedup.insert(operation.hash()) { continue }` -/
+  | dedup
+  /-- `return (state, Some(from_sync))` -/
+  | report
+deriving DecidableEq, Repr
+
+def phasesOf : List String → Option (List Phase)
+  | [] => some []
+  | "lookup-or-swallow" :: r => (phasesOf r).map (Phase.swallow :: ·)
+  | "keys" :: "for[" :: "skip-self" :: "sender" :: "send" :: "collect-failed" :: "]" :: r =>
+    (phasesOf r).map (Phase.forward true :: ·)
+  | "keys" :: "for[" :: "sender" :: "send" :: "collect-failed" :: "]" :: r =>
+    (phasesOf r).map (Phase.forward false :: ·)
+  | "drop-failed" :: r => (phasesOf r).map (Phase.dropFailed :: ·)
+  | "dedup" :: r => (phasesOf r).map (Phase.dedup :: ·)
+  | ["report"] => some [Phase.report]
+  | _ => none
+
+/-- interpreter state: current state, sessions whose channel turned out closed, `continue` taken -/
+structure CS where
+  st : St
+  failed : List Nat := []
+  stopped : Bool := false
+
+def runPhase (base : St) (sid : Nat) (src : Sess) (x : Nat) (c : CS) (p : Phase) : CS :=
+  if c.stopped then c else
+  match p with
+  | .swallow => if base.dropped.contains sid then { c with stopped := true } else c
+  | .forward skipSelf =>
+    { c with
+      st := { c.st with sess := c.st.sess.map (fun s' =>
+        if (skipSelf = false ∨ s'.sid ≠ sid) ∧ s'.topic = src.topic ∧ s'.live = true
+        then { s' with liveQ := s'.liveQ ++ [x] } else s') },
+      failed := (base.sess.filter (fun s' =>
+        (skipSelf = false ∨ s'.sid ≠ sid) ∧ s'.topic = src.topic ∧ s'.live = false
+          ∧ !base.dropped.contains s'.sid)).map (·.sid) }
+  | .dropFailed => { c with st := { c.st with dropped := c.st.dropped ++ c.failed } }
+  | .dedup =>
+    { c with st := { c.st with cdedup := (c.st.cdedup.insert x).1 },
+             stopped := !(c.st.cdedup.insert x).2 }
+  | .report => { c with st := { c.st with reports := c.st.reports ++ [(sid, x)] } }
+
+/-- the event is taken from the session's broadcast channel, then the branch runs -/
+def consumeOf (ps : List Phase) (st : St) (sid : Nat) : St :=
+  match st.sess.find? (fun s => s.sid = sid) with
+  | none => st
+  | some s =>
+    match s.evQ with
+    | [] => st
+    | x :: q =>
+      (ps.foldl (runPhase st sid s x)
+        { st := { st with sess := updSess sid (fun s => { s with evQ := q }) st.sess } }).st
+
+theorem skeleton_phases :
+    phasesOf P2.Extracted.C23.nextEventSkeleton
+      = some [.swallow, .forward true, .dropFailed, .dedup, .report] := by decide
+
+/-- **The model's `consume` is the source**: the branch of `next_event` as extracted on this
+    run, interpreted statement by statement, is `St.consume` — for every state and session. -/
+theorem c23_consume_is_source (st : St) (sid : Nat) :
+    (phasesOf P2.Extracted.C23.nextEventSkeleton).map (fun ps => consumeOf ps st sid)
+      = some (st.consume sid) := by
+  rw [skeleton_phases]
+  simp only [Option.map_some, Option.some.injEq]
+  cases hfind : st.sess.find? (fun s => s.sid = sid) with
+  | none => simp [consumeOf, St.consume, hfind]
+  | some s =>
+    cases hq : s.evQ with
+    | nil => simp [consumeOf, St.consume, hfind, hq]
+    | cons x q =>
+      by_cases hd : sid ∈ st.dropped
+      · simp [consumeOf, St.consume, hfind, hq, List.foldl, runPhase, hd]
+      · cases hb : (st.cdedup.insert x).2 <;>
+          simp [consumeOf, St.consume, hfind, hq, List.foldl, runPhase, hd, hb]
+
+/-- The guards of the two arms of the live loop in `TopicLogSync::run`, as extracted on this run
+    (each must be the first statement of its arm, with a `continue` block, before the send / the
+    event): both *insert* into the session's buffer and skip on a duplicate — what
+    `Sess.stepLive` / `Sess.stepRemote` transcribe. -/
+theorem c23_session_guards_are_source :
+    P2.Extracted.C23.liveArmGuard = "!dedup.insert(operation.hash)"
+    ∧ P2.Extracted.C23.remoteArmGuard = "!dedup.insert(header.hash())" := by decide
 
 /-! ## Non-vacuity -/
 section Examples
